@@ -57,6 +57,8 @@ type Discharger struct {
 	Dir       string // scratch dir for failed queries
 	NoRace    bool   // probes: one solver, no retry
 	Claimed   func(id string) bool // obligations worth the full timeout and the solver race
+	Skip      func(id string) bool // obligations not attempted in this tier (known undecided, unclaimed)
+	Skipped   map[string]bool
 	mu        sync.Mutex
 	Stats     SolveStats
 	seen      map[[32]byte]bool
@@ -95,6 +97,15 @@ func (d *Discharger) buildIncremental(u *UnitResult, ps *PathScript) (string, []
 		case ItComment:
 			fmt.Fprintf(&b, "; %s\n", it.Text)
 		case ItCheck:
+			if d.Skip != nil && d.Skip(it.Obl.ID) {
+				d.mu.Lock()
+				if d.Skipped == nil {
+					d.Skipped = map[string]bool{}
+				}
+				d.Skipped[it.Obl.ID] = true
+				d.mu.Unlock()
+				continue
+			}
 			hh := sha256.New()
 			hh.Write(h.Sum(nil))
 			hh.Write([]byte(it.Obl.ID))
@@ -160,11 +171,12 @@ func answers(out string) []string {
 }
 
 // DischargeUnit runs all path scripts of a unit; returns one instance per (non-duplicate) check.
+// DischargeUnit runs all path scripts of a unit (one solver process per path; sharing prefixes in one
+// incremental process with nested push/pop was measured to be slower with z3); returns one instance
+// per (non-duplicate) check.
 func (d *Discharger) DischargeUnit(u *UnitResult) []*OblInstance {
-	type job struct {
-		ps *PathScript
-	}
 	var all []*OblInstance
+	wgCount := 0
 	var amu sync.Mutex
 	sem := make(chan struct{}, d.Workers)
 	var wg sync.WaitGroup
@@ -173,6 +185,11 @@ func (d *Discharger) DischargeUnit(u *UnitResult) []*OblInstance {
 		script, checks, standalone := d.buildIncremental(u, ps)
 		if len(checks) == 0 {
 			continue
+		}
+		if dd := os.Getenv("GOVC_DUMP_SCRIPTS"); dd != "" {
+			os.MkdirAll(dd, 0o755)
+			os.WriteFile(filepath.Join(dd, fmt.Sprintf("%s.%d.smt2", mangle(u.Key), wgCount)), []byte(script), 0o644)
+			wgCount++
 		}
 		wg.Add(1)
 		sem <- struct{}{}
